@@ -1,8 +1,8 @@
 package main
 
 import (
-	"go/types"
 	"go/token"
+	"go/types"
 	"strings"
 
 	"golang.org/x/tools/go/ssa"
@@ -130,6 +130,19 @@ func c03SameValue(c *Ctx) {
 				}
 				c.Check(okv, rule, "write TargetServer in "+sf, s.Pos(), "records the dialled address after the dial", "Tunnel.TargetServer is overwritten in the packet loop with something other than the dialled address, or before the dial")
 			default:
+				// a helper of the packet loop that dials and then records the dialled address
+				if pr := c.Fn("cmd/rdpgw/protocol", "Processor.Process"); c.onlyCalledFrom(f, pr, 0) {
+					okv := false
+					for _, ci := range callsIn(f) {
+						if n := calleeName(ci); strings.HasPrefix(n, "net.Dial") {
+							if call, isCall := ci.(*ssa.Call); isCall && len(call.Call.Args) > 1 && call.Call.Args[1] == s.Val && dominatesInstr(call, s) {
+								okv = true
+							}
+						}
+					}
+					c.Check(okv, rule, "write TargetServer in "+sf, s.Pos(), "records the dialled address after the dial", "Tunnel.TargetServer is overwritten in the packet loop with something other than the dialled address, or before the dial")
+					return
+				}
 				c.Bad(rule, "write TargetServer in "+sf, s.Pos(), "the token host of a tunnel is written outside CheckPAACookie/Process")
 			}
 		})
@@ -465,7 +478,17 @@ func c03NameDecoding(c *Ctx) {
 	c.Check(appended, rule, key+" every-unit", fn.Pos(), "every iteration appends the decoded unit", "an iteration of the decoding loop can complete without appending its code unit")
 	// shortening of the result: at most one trailing element, outside loops
 	nShort := 0
-	eachInstr(fn, func(in ssa.Instruction) {
+	shortScan := c03ShortScan(c, rule, key, &nShort)
+	for _, sf := range scopeFuncs(fn, 1) {
+		eachInstr(sf, func(in ssa.Instruction) { shortScan(in) })
+	}
+	_ = nShort
+	c.Floor(rule, 3, "use, loop bound, every unit (+ terminator)")
+}
+
+// (body of the terminator scan, kept as a closure factory for readability)
+func c03ShortScan(c *Ctx, rule, key string, nShort *int) func(in ssa.Instruction) {
+	return func(in ssa.Instruction) {
 		sl, ok := in.(*ssa.Slice)
 		if !ok || sl.High == nil {
 			return
@@ -477,9 +500,8 @@ func c03NameDecoding(c *Ctx) {
 		if !ok || hb.Op != token.SUB {
 			return
 		}
-		nShort++
+		*nShort++
 		k, isC := constInt(hb.Y)
-		c.Check(isC && k == 1 && !inCycle(sl.Block()) && isLenOf(hb.X, sl.X), rule, key+" terminator#"+itoa(nShort), sl.Pos(), "exactly one trailing element (the NUL terminator) is removed, once", "more than the one terminator can be stripped from the decoded name (repeated or wider cut): names that differ only in trailing NULs become equal")
-	})
-	c.Floor(rule, 4, "use, loop bound, every unit, terminator")
+		c.Check(isC && k == 1 && !inCycle(sl.Block()) && isLenOf(hb.X, sl.X), rule, key+" terminator#"+itoa(*nShort), sl.Pos(), "exactly one trailing element (the NUL terminator) is removed, once", "more than the one terminator can be stripped from the decoded name (repeated or wider cut): names that differ only in trailing NULs become equal")
+	}
 }
